@@ -387,6 +387,16 @@ CAMPAIGNS['C09'].append(
          errnos=['ENOSPC', 'EACCES'], crash_end=True, weight=0.7,
          sweep_max={'quick': 8, 'thorough': None}, follow=1))
 CAMPAIGNS['C08'].append(
+    camp('c08-threads-oserror', 'threads',
+         {'p_same_key': 1.0, 'p_tamper': 0.6},
+         'same key from 2-4 threads with an OSError at every pre-commit '
+         'mutating call index of the last build (a loser or winner failing '
+         'in setup must not disturb the other)', mode='oserror-sweep',
+         nontrivial=nt_threads, chunk=4, fault_step='lastbuild',
+         post='tag_all:C08', torn=False, errnos=['ENOSPC', 'EACCES'],
+         crash_end=True, weight=0.6,
+         sweep_max={'quick': 8, 'thorough': None}, follow=1))
+CAMPAIGNS['C08'].append(
     camp('c08-preemption-sweep', 'threads', {'p_same_key': 1.0},
          'same key from 2-3 threads, single-preemption sweep of the first '
          'threaded build', mode='sched-sweep', nontrivial=nt_threads,
